@@ -116,16 +116,21 @@ def install(w):
         d = s.fr(f, cp)
         return z3.And(Val.is_ref(s.f(f, cp)), s0.top <= d, d < s.top, kind(d) == KIND_DICT, s.dmap(d) == s0.dmap(s0.fr(f, self)), s.dn(d) == s0.dn(s0.fr(f, self)))
 
+    def dict_other(s0, s, cp, self, f):
+        """the order in which copy() rebuilds its three dictionaries is not part of the property: another dictionary is either
+        rebuilt already or still the one the shallow copy shares with the original"""
+        return z3.Or(dict_done(s0, s, cp, self, f), s.f(f, cp) == s0.f(f, self))
+
     def dict_inv(field):
-        done = DICTS[:DICTS.index(field)]
+        others = [f for f in DICTS if f != field]
 
         def inv(s0, s, v):
             q = z3.Const("di_q", Val)
             src = s0.fr(field, v.self)
             D = v.D
             m0, pos = s0.dmap(src), s0.dpos(src)
-            return {"registered": registered(s0, s, v._copy), "earlier-dicts": z3.And(*[dict_done(s0, s, v._copy, v.self, f) for f in done]) if done else z3.BoolVal(True),
-                    "distinct": z3.And(*[s.fr(f, v._copy) != D for f in done]) if done else z3.BoolVal(True),
+            return {"registered": registered(s0, s, v._copy), "other-dicts": z3.And(*[dict_other(s0, s, v._copy, v.self, f) for f in others]),
+                    "distinct": z3.And(*[s.fr(f, v._copy) != D for f in others]),
                     "bound": v._k <= s0.dn(src), "field": s.f(field, v._copy) == Val.ref(D), "fresh": z3.And(D >= s0.top, D < s.top, kind(D) == KIND_DICT),
                     "contents": smt.FA([q], s.dmap(D)[q] == z3.If(z3.And(0 <= pos[q], pos[q] < v._k, m0[q] != smt.absent), m0[q], smt.absent),
                                        patterns=[s.dmap(D)[q]]),
